@@ -207,9 +207,17 @@ func (c *compiler) compileFile(astFile *ast.File, pkg *pkg.Package) *file {
 		msgfmt := "files that use %v must be tagged with the 'cff' constraint: " +
 			"fix by adding '//go:build cff' to the top of this file"
 		for _, f := range file.Flows {
+			if f == nil {
+				// The flow failed to compile; that was already reported.
+				continue
+			}
 			c.errf(c.nodePosition(f.Node), msgfmt, "cff.Flow")
 		}
 		for _, p := range file.Parallels {
+			if p == nil {
+				// The parallel failed to compile; that was already reported.
+				continue
+			}
 			c.errf(c.nodePosition(p.Node), msgfmt, "cff.Parallel")
 		}
 	}
